@@ -323,7 +323,7 @@ PROPS = {
     ),
 }
 
-HOOK_COMMITS = ["bf5febd", "cd696c4", "9ed478c", "e2da513", "a1cf379", "74a10c2", "07fc074"]
+HOOK_COMMITS = ["bf5febd", "cd696c4", "9ed478c", "e2da513", "a1cf379", "74a10c2", "07fc074", "a8a8845"]
 NOT_APPLICABLE = []
 
 MANIFEST_TEXT = {
